@@ -83,6 +83,18 @@ Definition phase_blind (q : bparams) (data : lut) (l2n sk : list Z) : option pol
   | Extended => Some (nth 0 (cggi_extended n (block_size q) bb av sk lutp) [])
   end.
 
+(* histories: events = [kind_1; arg_1; kind_2; arg_2; ...]; kind 0: set_rotation_direction(arg = 0 Left / 1 Right);
+   kind 1: set(f, kmsg) with [kmsg; f...] = vs[arg] *)
+Fixpoint decode_events (fuel : nat) (evs : list Z) (vs : list (list Z)) : list levent :=
+  match fuel, evs with
+  | S fu, k :: a :: t =>
+      (if k =? 0 then EDir (a =? 0) else let tb := nth (Z.to_nat a) vs [] in ESet (hd 0 tb) (tl tb)) :: decode_events fu t vs
+  | _, _ => []
+  end.
+Definition set_left (q : bparams) (l : bool) : bparams :=
+  {| q_n := q_n q; q_ext := q_ext q; q_block := q_block q; q_nlwe := q_nlwe q; q_b := q_b q; q_kbrk := q_kbrk q; q_klut := q_klut q;
+     q_kres := q_kres q; q_rank := q_rank q; q_kmsg := q_kmsg q; q_left := l; q_dist := q_dist q; q_blwe := q_blwe q |}.
+
 Definition run_c14 (code : Z) (ps : list Z) (vs : list (list Z)) : option (list (list Z)) :=
   match code with
   | 14001 | 14002 | 14003 =>
@@ -93,6 +105,31 @@ Definition run_c14 (code : Z) (ps : list Z) (vs : list (list Z)) : option (list 
           if code =? 14001 then Some (dump t)
           else if code =? 14002 then Some (flat_map (fun k => map flatten (lookup_table_rotate n k (fst t))) (v vs 1))
           else Some (map (fun k => map hdZ (nth 0 (lookup_table_rotate n k (fst t)) [])) (v vs 1))
+      end
+  | 14005 =>
+      let n := np ps 1 in
+      let evs := decode_events (length (v vs 0)) (v vs 0) vs in
+      match run_events n (np ps 2) (p ps 3) (p ps 4) evs (lut_alloc n (np ps 2) (p ps 3) (p ps 4)) with
+      | Some st => Some (map flatten (st_data st) ++ [[st_drift st]; [if st_left st then 0 else 1]])
+      | None => None
+      end
+  | 14021 =>
+      let q0 := bpar ps in
+      let evs := decode_events (length (v vs 3)) (v vs 3) vs in
+      match run_events (q_n q0) (q_ext q0) (q_b q0) (q_klut q0) evs (lut_alloc (q_n q0) (q_ext q0) (q_b q0) (q_klut q0)) with
+      | None => None
+      | Some st =>
+          let q := set_left q0 (st_left st) in
+          match switched q (v vs 1) with
+          | None => None
+          | Some l2n =>
+              let ls := Z.of_nat (length (nth 0 (st_data st) [])) in
+              let F := ls * q_b q in
+              match phase_blind q (st_data st) l2n (v vs 2) with
+              | Some ph => Some [l2n; let H := 2 ^ (F - 1) in let M := 2 ^ F in map (wrap_pre H M) ph]
+              | None => None
+              end
+          end
       end
   | 14004 =>
       match mod_switch_2n (p ps 0) (p ps 1) (p ps 3 =? 0) vs with
